@@ -38,6 +38,13 @@ const FOOTER_SIZE: usize = 64;
 /// SIMD optimization threshold (minimum size for SIMD benefits)
 const SIMD_THRESHOLD: usize = 64;
 
+/// Checksum stored after each record at checksum levels 2 and 3
+///
+/// The builder appends it and the store verifies it, so both must use this one definition.
+pub(crate) fn record_checksum(data: &[u8]) -> u32 {
+    data.iter().fold(0u32, |acc, &byte| acc.wrapping_add(byte as u32))
+}
+
 /// Configuration for ZipOffsetBlobStore
 #[derive(Debug, Clone)]
 #[cfg_attr(feature = "serde", derive(Serialize, Deserialize))]
@@ -369,6 +376,23 @@ impl ZipOffsetBlobStore {
         })
     }
 
+    /// Install the content and offset index produced by `ZipOffsetBlobStoreBuilder`
+    ///
+    /// `offsets` holds the start of every record plus one final entry, the end of the content.
+    pub(crate) fn set_content(
+        &mut self,
+        content: FastVec<u8>,
+        offsets: SortedUintVec,
+        uncompressed_size: usize,
+    ) {
+        self.content = content;
+        self.offsets = offsets;
+        self.stats.uncompressed_size = uncompressed_size;
+        self.stats.compressed_size = self.content.len();
+        self.stats.compressed_count = self.len();
+        self.stats.compression_ratio = self.stats.ratio();
+    }
+
     /// Load ZipOffsetBlobStore from file
     pub fn load_from_file<P: AsRef<Path>>(path: P) -> Result<Self> {
         let mut file = std::fs::File::open(path)?;
@@ -463,7 +487,7 @@ impl ZipOffsetBlobStore {
         let header = FileHeader::new(
             file_size,
             self.stats.uncompressed_size as u64,
-            self.offsets.len() as u64,
+            self.len() as u64,
             content_bytes,
             offsets_bytes,
             &self.config,
@@ -505,7 +529,7 @@ impl ZipOffsetBlobStore {
         &self,
         id: RecordId,
     ) -> Result<Vec<u8>> {
-        if id as usize >= self.offsets.len() {
+        if id as usize >= self.len() {
             return Err(ZiporaError::invalid_data("record ID out of bounds"));
         }
 
@@ -513,7 +537,8 @@ impl ZipOffsetBlobStore {
         let (start_offset, end_offset) = self.offsets.get2(id as usize)?;
         let mut record_len = (end_offset - start_offset) as usize;
         
-        if start_offset >= self.content.len() as u64 || end_offset > self.content.len() as u64 {
+        // an empty record at the end of the content starts at content.len()
+        if end_offset > self.content.len() as u64 {
             return Err(ZiporaError::invalid_data("offset out of bounds"));
         }
 
@@ -593,7 +618,7 @@ impl ZipOffsetBlobStore {
             checksum
         } else {
             // Standard implementation for small data
-            data.iter().fold(0u32, |acc, &byte| acc.wrapping_add(byte as u32))
+            record_checksum(data)
         }
     }
 
@@ -758,7 +783,9 @@ impl BlobStore for ZipOffsetBlobStore {
             (false, 0) => self.get_record_impl::<false, 0, false>(id),
             (false, 2) => self.get_record_impl::<false, 4, false>(id),
             (false, 3) => self.get_record_impl::<false, 4, false>(id),
-            _ => self.get_record_impl::<false, 0, false>(id),
+            // checksum level 1 covers the header only: records carry no checksum
+            (true, _) => self.get_record_impl::<true, 0, false>(id),
+            (false, _) => self.get_record_impl::<false, 0, false>(id),
         }
     }
 
@@ -774,12 +801,17 @@ impl BlobStore for ZipOffsetBlobStore {
     }
 
     fn contains(&self, id: RecordId) -> bool {
-        (id as usize) < self.offsets.len()
+        (id as usize) < self.len()
     }
 
     fn size(&self, id: RecordId) -> Result<Option<usize>> {
         if !self.contains(id) {
             return Ok(None);
+        }
+
+        // The offset index only knows the compressed length
+        if self.config.compress_level > 0 {
+            return Ok(Some(self.get(id)?.len()));
         }
 
         // Get record size from offset difference
@@ -795,7 +827,8 @@ impl BlobStore for ZipOffsetBlobStore {
     }
 
     fn len(&self) -> usize {
-        self.offsets.len()
+        // one offset per record plus the end of the content
+        self.offsets.len().saturating_sub(1)
     }
 
     fn flush(&mut self) -> Result<()> {
